@@ -375,7 +375,85 @@ def binding_cases(ctx):
     ctx.count("fixed binding / same-name programs executed (6 routes x literal / run-time operands)", n)
 
 
+KG_SRC = """
+@tweezer
+def kg(g: grid.Grid[Any, Any], dx: float):
+    action.set_loc(g)
+    action.turn_on(action.ALL, [0])
+    action.move(grid.shift(g, dx, 0.5))
+"""
+
+GRID_ARG_SRC = """
+@move{DEC}
+def main(c: bool):
+    f = schedule.device_fn(kg, [0, 1], [0, 1])
+    f(Z, 1.0)
+    f(FZ, 1.0)
+    with schedule.parallel():
+        f(FZ2, 1.0)
+        f(Z, 1.0)
+        f(g=FZ, dx=1.0)
+    if c:
+        z = FZ
+    else:
+        z = Z
+    f(z, 1.0)
+    gate.local_rz(0.5, FZ2)
+    gate.local_rz(0.5, Z)
+"""
+
+
+def grid_argument_cases(ctx):
+    """device calls whose argument is a captured grid CONSTANT: a plain zone, a filled copy of it, and a filled copy with other vacancies - the
+    same geometry, three different values; alone, in a group, and selected by a run-time branch: every call's path is the path for ITS
+    grid (the expectation is the tweezer kernel's source evaluated natively on that grid)"""
+    from kirin.dialects import ilist
+    from bloqade.geometry.dialects.grid import Grid
+    from bloqade.shuttle.dialects.filled.types import FilledGrid
+    from bloqade.shuttle.dialects.path import Path
+    from gen import tweezer_prog
+    from props import tracer_common as tc
+    from vcommon import events
+    S = tweezer_prog.harness_spec()
+    Z = Grid.from_positions([0.0, 3.0], [0.0, 2.0])
+    FZ = FilledGrid(parent=Z, vacancies=frozenset({(0, 0)}))
+    FZ2 = FilledGrid(parent=Z, vacancies=frozenset({(1, 1), (0, 1)}))
+    kg = kernels.define(KG_SRC)["kg"]
+    grids = {"Z": Z, "FZ": FZ, "FZ2": FZ2}
+
+    def path_of(name):
+        nat = tc.run_native(KG_SRC, "kg", (grids[name], 1.0), S)
+        return Path(ilist.IList([0, 1]), ilist.IList([0, 1]), tc.concrete_path(tc.ref_trace(nat[1])))
+    events._register()
+    n = 0
+    for c in (True, False):
+        want_evs = [("play", path_of("Z")), ("play", path_of("FZ")), ("play", events.Group("parallel", (path_of("FZ2"), path_of("Z"), path_of("FZ")))),
+                    ("play", path_of("FZ" if c else "Z")), ("local_rz", 0.5, FZ2), ("local_rz", 0.5, Z)]
+        want = events.events_text(want_evs, tc.PosTable())
+        for dec, plain in (("", False), ("(fold=False)", False), ("(arch_spec=S)", True), ("(arch_spec=S, fold=False)", True), ("(arch_spec=S)", False),
+                           ("(arch_spec=S, aggressive=True)", True)):
+            src = GRID_ARG_SRC.replace("{DEC}", dec)
+            rep = {"grid_argument_src": src, "c": c, "plain": plain}
+            ctx.evaluations += 1
+            n += 1
+            try:
+                m = kernels.define(src, kg=kg, S=S, Z=Z, FZ=FZ, FZ2=FZ2)["main"]
+                st, evs, extra = events.run_events(m, (c,), S, plain=plain)
+            except Exception as e:
+                st, evs, extra = "err", [], f"definition failed: {type(e).__name__}: {e}"
+            got = events.events_text(evs, tc.PosTable()) if st == "ok" else ["ERR " + str(extra)[:100]]
+            if got != want:
+                k = next((j for j in range(min(len(got), len(want))) if got[j] != want[j]), min(len(got), len(want)))
+                ctx.fail({"kind": "played-path-is-not-the-path-of-its-call", "decorator": dec, "operands": "grid constants"}, rep,
+                         f"@move{dec} (c={c}): event {k} is {(got[k] if k < len(got) else '<none>')[:130]} but the source says "
+                         f"{(want[k] if k < len(want) else '<none>')[:130]}")
+            else:
+                ctx.nt(("grid-argument", dec, c, plain))
+    ctx.count("programs whose device calls take a zone / a filled copy / another filled copy as constants (6 routes x both branches)", n)
+
+
 def run(ctx):
+    grid_argument_cases(ctx)
     ctx.rule = ("move kernels mixing device calls (positional/keyword in permuted order, forward/reversed/inline-reversed callees), nested "
                 "parallel/auto blocks, gates, fills, measurements, if/for: ALL nesting shapes up to depth/width/call bounds (quick 2/2/4, "
                 "thorough 3/3/5) as single-block kernels, plus random programs with blocks nested up to depth 4; the compiled IR is abstracted "
@@ -428,6 +506,15 @@ def run(ctx):
 
 
 def replay(data):
+    if "grid_argument_src" in data["input"]:
+        class C:
+            def __init__(s): s.fails, s.evaluations = [], 0
+            def fail(s, sig, rep, what): s.fails.append(what)
+            def nt(s, *a): pass
+            def count(s, *a): pass
+        c = C()
+        grid_argument_cases(c)
+        return bool(c.fails), (c.fails or ["every call plays the path for its own grid"])[0][:200]
     inp = data["input"]
     if "binding_src" in inp:
         class C:
